@@ -11,11 +11,11 @@ for p in props:
     path = os.path.join(V, "harness", "props", pid.lower() + ".py")
     meta = {}
     if os.path.exists(path):
-        src = open(path).read()
-        for key in ("LEVEL_TEXT", "LEVEL_NOTE", "TECHNIQUE", "DESIGN_REF"):
-            m = re.search(r'^%s\s*=\s*\((.*?)^\)' % key, src, re.S | re.M) or re.search(r'^%s\s*=\s*(".*?")\s*$' % key, src, re.M)
-            if m:
-                meta[key] = eval("(" + m.group(1) + ")")
+        import ast
+        for node in ast.parse(open(path).read()).body:
+            if isinstance(node, ast.Assign) and len(node.targets) == 1 and isinstance(node.targets[0], ast.Name) \
+               and node.targets[0].id in ("LEVEL_TEXT", "LEVEL_NOTE", "TECHNIQUE", "DESIGN_REF"):
+                meta[node.targets[0].id] = ast.literal_eval(node.value)
     if "LEVEL_TEXT" in meta:
         checks.append({
             "property_id": pid,
